@@ -6,7 +6,7 @@ SPEC = {
     "harness": [
         {"bin": "h_network", "n": {"quick": 180, "thorough": 2400}, "args": ["--mode", "c01"], "known_bits": {16: "C01-peer-mac-over-beta-i"}},
         {"bin": "h_segments", "n": {"quick": 90, "thorough": 1000}, "known_bits": {16: "C01-peer-mac-over-beta-i"}},
-        {"bin": "h_joinable", "n": {"quick": 120, "thorough": 1800}, "known_bits": {}},
+        {"bin": "h_joinable", "n": {"quick": 150, "thorough": 1800}, "known_bits": {}},
     ],
     "shard_eval": "coqtop",
     "rule": "h_network: every case = pocketscion topology (directed shortcut/peering/on-path/multi-core/two-ISD shapes, sampled small DAG family with permuted interface numbering, random up to 12 [20] ASes) + one path offered by SegmentRegistry::paths (real registry, real combinator) or the reverse of the packet that arrived; oracle: the reference router delivers it at the destination crossing exactly the metadata's interfaces, and the reply over the reversed arrived path reaches the sender. h_segments: every segment the real control plane builds for sampled AS pairs (random SegID, expiry), every MAC recomputed by the beacon model; h_joinable: topologies that put (src,dst) pairs into every reachable row of the ListSegmentPlan table (several cores per ISD with single-homed leaves, single-core ISDs, two ISDs; wildcard any-core destinations); per pair ALL segments of the topology (beaconing recomputed by the harness, independent of the registry) and what the real lookup path (registry lister + ListSegmentPlan + combinator) offers; oracle Spec.joinable / joinable_any (specification rules without peering) implies offered > 0; non-trivial = at least 2 hop fields / AS entries / one segment; distinct by full case text",
